@@ -114,6 +114,7 @@ func H_C11_constant(v *zzverif.T) {
 	var wantF []float32
 	var wantI []int64
 	var shape []int
+	var wantAny interface{}
 	expectErr := false
 	switch form {
 	case "value_float":
@@ -142,6 +143,61 @@ func H_C11_constant(v *zzverif.T) {
 		wantF = zzverif.Syms[float32](v, "f", n)
 		shape = v.CInts("dims")
 		attrs = append(attrs, zzAttrT("value", &onnx.TensorProto{DataType: 1, Dims: zzInt64s(shape), FloatData: append([]float32(nil), wantF...)}))
+	case "value_typed":
+		// a value tensor of every element type in the typed field ONNX assigns to it
+		// (int32_data carries the narrow integers and bool, uint64_data carries uint32 as well)
+		shape = []int{n}
+		tp := &onnx.TensorProto{Dims: []int64{int64(n)}}
+		switch v.CStr("dtype") {
+		case "uint32":
+			c := zzverif.Syms[uint64](v, "u", n)
+			tp.DataType, tp.Uint64Data = 12, append([]uint64(nil), c...)
+			w := make([]uint32, n)
+			for i := range c {
+				w[i] = uint32(c[i])
+			}
+			wantAny = w
+		case "uint64":
+			c := zzverif.Syms[uint64](v, "u", n)
+			tp.DataType, tp.Uint64Data = 13, append([]uint64(nil), c...)
+			wantAny = c
+		case "float64":
+			c := zzverif.Syms[float64](v, "d", n)
+			tp.DataType, tp.DoubleData = 11, append([]float64(nil), c...)
+			wantAny = c
+		default:
+			c := zzverif.Syms[int32](v, "c", n)
+			tp.Int32Data = append([]int32(nil), c...)
+			switch v.CStr("dtype") {
+			case "int32":
+				tp.DataType, wantAny = 6, c
+			case "int16":
+				w := make([]int16, n)
+				for i := range c {
+					w[i] = int16(c[i])
+				}
+				tp.DataType, wantAny = 5, w
+			case "int8":
+				w := make([]int8, n)
+				for i := range c {
+					w[i] = int8(c[i])
+				}
+				tp.DataType, wantAny = 3, w
+			case "uint16":
+				w := make([]uint16, n)
+				for i := range c {
+					w[i] = uint16(c[i])
+				}
+				tp.DataType, wantAny = 4, w
+			case "uint8":
+				w := make([]uint8, n)
+				for i := range c {
+					w[i] = uint8(c[i])
+				}
+				tp.DataType, wantAny = 2, w
+			}
+		}
+		attrs = append(attrs, zzAttrT("value", tp))
 	case "none":
 		expectErr = true
 	case "two":
@@ -164,7 +220,9 @@ func H_C11_constant(v *zzverif.T) {
 	if r.Err != nil || len(r.Outs) != 1 {
 		return
 	}
-	if wantF != nil {
+	if wantAny != nil {
+		v.AssertTensor("C11.constant.values", r.Outs[0], shape, wantAny)
+	} else if wantF != nil {
 		v.AssertTensor("C11.constant.values", r.Outs[0], shape, wantF)
 	} else {
 		v.AssertTensor("C11.constant.values", r.Outs[0], shape, wantI)
